@@ -75,8 +75,9 @@ class TaskHandler:
     def flush(self):
         """Await completion of all pending tasks."""
         self._open = False
-        if len(self._pending) > 0:
-            for key in dict(self._pending).keys():
-                get = self._pending.get(key)
-                if get is not None:
-                    self._pending[key].result(10)
+        for future in list(self._pending.values()):
+            try:
+                # wait for the task to finish; a failed task is reported by its done callback, not raised here
+                future.exception(10)
+            except Exception:
+                logging.exception("Task did not complete during flush %s", future)
